@@ -177,7 +177,15 @@ def report_belongs(prop, text, leg):
     if prop == "C01":
         return True
     if prop == "C02":
-        return "wl_mutex" in text and ("data race" in text.lower() or "Data race" in text)
+        # only a race on the data the mutex guards: both accesses sit in the harness's critical section
+        # (`*g += 1` in conc/workloads.rs), none of them inside the crate or on one of its types
+        if "wl_mutex" not in text or "data race" not in text.lower():
+            return False
+        m = re.search(r"Undefined Behavior: (Data race[^\n]*)\n(?:.*\n){0,3}?\s*--> ([^\n]*)", text)
+        if m:  # Miri
+            return "futures_intrusive::" not in m.group(1) and "workloads.rs" in m.group(2)
+        tops = re.findall(r"^\s*#0 ([^\n]*)", text, flags=re.M)[:2]  # ThreadSanitizer: innermost frame of both accesses
+        return len(tops) == 2 and all("futures_intrusive" not in t and "/repo/src/" not in t for t in tops)
     if prop == "C08":
         return any(w in text for w in ("BVal", "payload.rs", "double-free", "attempting double-free"))
     if prop in ("C19", "C20"):
